@@ -15,3 +15,22 @@ for name, m in rows:
     out.append('| %s | %s | %s |' % (name, m['property'], ' / '.join(m['checks_run_against_it']).replace('|', '\\|')))
 open('/verif/seeded/README.md', 'w').write('\n'.join(out) + '\n')
 print(len(rows), 'seeded changes')
+
+# also refresh the summary table of DESIGN.md section 8 (between the markers)
+import re
+d = open('/verif/DESIGN.md').read()
+tab = ['<!-- SEEDED-TABLE-BEGIN -->', '| seeded change (seeded/<dir>) | property | caught by | needed strengthening? |', '|---|---|---|---|']
+for name, m in rows:
+    cr = m['checks_run_against_it']
+    last = cr[-1]
+    caught = re.findall(r'(C\d\d) (?:quick|exit)', ' '.join(cr))
+    strengthened = 'yes - ' + cr[0].split(':',1)[1].strip()[:160] if len(cr) > 1 else 'no'
+    who = sorted(set(re.findall(r'(C\d\d)[^;]*?exit 1', ' '.join(cr)))) or [m['property']]
+    tab.append('| %s | %s | %s | %s |' % (name, m['property'], ', '.join(who), strengthened.replace('|','/')))
+tab.append('<!-- SEEDED-TABLE-END -->')
+block = '\n'.join(tab)
+if '<!-- SEEDED-TABLE-BEGIN -->' in d:
+    d = re.sub(r'<!-- SEEDED-TABLE-BEGIN -->.*?<!-- SEEDED-TABLE-END -->', lambda _: block, d, flags=re.S)
+else:
+    d = d.rstrip() + '\n\n' + block + '\n'
+open('/verif/DESIGN.md', 'w').write(d)
